@@ -83,7 +83,7 @@ class C10(Check):
             if g:
                 groups.append(g)
         if mode < 0.25:
-            groups.append(self._rn_group(rng, uni, rng.randrange(nroots), fault=rng.choice(["nested_sub", "nested_parent", "case", "same", "case_ok"])))
+            groups.append(self._rn_group(rng, uni, rng.randrange(nroots), fault=rng.choice(["nested_sub", "nested_parent", "case", "same", "case_ok", "same_nested", "same_sub", "nested_samename"])))
         nrf = rng.randint(1, 2)
         for _ in range(nrf):
             g = self._rf_group(rng, uni)
@@ -115,6 +115,7 @@ class C10(Check):
             look = sorted((needed | extra) - {rng.choice(sorted(needed))})
         fault_arg = None
         allow_coll = None
+        more_fault_args: list = []
         if fault == "nested_sub":
             subs = sorted({uni.file_of(k).rsplit("/", 1)[0] for k in uni.keys_of_root(ri)} - {uni.roots[ri]["dir"]})
             if subs:
@@ -128,6 +129,24 @@ class C10(Check):
             alt = nm if fault == "same" else (nm.upper() if nm.upper() != nm else nm.lower())
             fault_arg = {"p": "w/x9/" + alt, "st": rng.choice(["abs", "cwd"]), "ty": "p", "mk": True}
             allow_coll = fault == "case_ok" or (fault == "same" and rng.random() < 0.3)
+        elif fault in ("same_nested", "same_sub", "nested_samename"):
+            # two faults at once: a second directory with the root's name (collisions allowed) AND a nesting pair that involves
+            # one of the same-named directories - the nesting must be found whichever of the two is looked at first
+            nm = uni.roots[ri]["name"]
+            alt = nm if rng.random() < 0.6 else (nm.upper() if nm.upper() != nm else nm.lower())
+            pre = rng.choice(["w/x9/", "w/a0/", "w/zz/"])  # sorts before / after the real roots
+            allow_coll = True
+            if fault == "same_nested":
+                extra_fault_args = [{"p": pre + alt, "ty": "p", "mk": True}, {"p": pre + alt + "/" + rng.choice(["inner", alt, "zz"]), "ty": "p", "mk": True}]
+            elif fault == "same_sub":
+                subs = sorted({uni.file_of(k).rsplit("/", 1)[0] for k in uni.keys_of_root(ri)} - {uni.roots[ri]["dir"]})
+                extra_fault_args = [{"p": pre + alt, "ty": "p", "mk": True}, {"p": rng.choice(subs), "ty": "p"} if subs else {"p": uni.roots[ri]["dir"] + "/zz9", "ty": "p", "mk": True}]
+            else:
+                extra_fault_args = [{"p": uni.roots[ri]["dir"] + "/" + rng.choice(["zz9/", ""]) + alt + ("" if alt != nm else "_x")[:0], "ty": "p", "mk": True}]
+                if extra_fault_args[0]["p"] == uni.roots[ri]["dir"] + "/" + nm and any(uni.file_of(k).startswith(extra_fault_args[0]["p"] + "/") for k in uni.defs):
+                    pass
+            fault_arg = dict(extra_fault_args[0], st="abs")
+            more_fault_args = extra_fault_args[1:]
         nexec = rng.randint(3, 5)
         ops = []
         for e in range(nexec):
@@ -135,6 +154,8 @@ class C10(Check):
             lk = [self._arg(rng, uni, x) for x in look]
             if fault_arg is not None:
                 lk.insert(rng.randint(0, len(lk)), dict(fault_arg, st=rng.choice(["abs", "cwd", "dd"])))
+            for fa in more_fault_args:
+                lk.insert(rng.randint(0, len(lk)), dict(fa, st=rng.choice(["abs", "cwd", "dd"])))
             if e > 0:
                 rng.shuffle(lk)
                 if lk and rng.random() < 0.4:
@@ -152,8 +173,9 @@ class C10(Check):
                 op["allow_coll"] = rng.random() < 0.5 if not self._has_samename(uni, [ri] + look) else True
             ops.append(op)
         g = {"kind": "rn", "ops": ops}
-        if fault_arg is not None and fault_arg.get("mk"):
-            g["mkdirs"] = [fault_arg["p"]]
+        mk = [fa["p"] for fa in [fault_arg] + more_fault_args if fa is not None and fa.get("mk")]
+        if mk:
+            g["mkdirs"] = mk
         return g
 
     def _evolve_group(self, rng, uni: Universe) -> dict | None:
